@@ -79,7 +79,7 @@ impl Stdfs {
     #[verifier::external_body] pub fn cwd() -> (r: RvResult<PathBuf>) ensures r is Ok == os_cwd() is Some, r is Ok ==> r->Ok_0.comps() == os_cwd()->Some_0 && r->Ok_0.utf8_ok() == os_cwd_utf8() { unimplemented!() }
 }
 
-//@ item memfs_abs file=src/sys/fs/memfs/vfs.rs block="impl Memfs" fn=_abs props=C05,C01,C12,C03,C09,C10,C06,C17
+//@ item memfs_abs file=src/sys/fs/memfs/vfs.rs block="impl Memfs" fn=_abs props=C05,C01,C12,C03,C09,C10,C06,C17,C20
 //@ sig pub(crate) fn _abs<T: AsRef<Path>>(&self, guard: &MemfsGuard, path: T) -> RvResult<PathBuf>
 //@ rw R5 * ⟦PathError::Empty.into()⟧ => ⟦PathError::Empty_().into()⟧
 //@ rw R5 * ⟦PathError::ParentNotFound(curr).into()⟧ => ⟦PathError::parent_not_found(curr).into()⟧
